@@ -640,7 +640,15 @@ func TestRandomScripts(t *testing.T) {
 			bits = 1024
 		}
 		key := loginpeer.PoolKey(bits, rapid.IntRange(0, 1).Draw(rt, "keyidx"))
-		nonce := rapid.SliceOfN(rapid.Byte(), 0, 64).Draw(rt, "nonce")
+		var nonce []byte
+		if rapid.IntRange(0, 3).Draw(rt, "nonceclass") == 0 {
+			// boundary: the 32-byte session key is the largest secret; nonce + 32 fills the OAEP
+			// capacity of the key exactly (or stays one / two bytes below)
+			n := key.Capacity() - 32 - rapid.IntRange(0, 2).Draw(rt, "below")
+			nonce = rapid.SliceOfN(rapid.Byte(), n, n).Draw(rt, "nonce-at-capacity")
+		} else {
+			nonce = rapid.SliceOfN(rapid.Byte(), 0, 64).Draw(rt, "nonce")
+		}
 		extras := rapid.Bool().Draw(rt, "extras")
 		ps := 0
 		if rapid.Bool().Draw(rt, "packsize") {
@@ -649,9 +657,16 @@ func TestRandomScripts(t *testing.T) {
 		s := validScript(plain, key, nonce, rapid.Bool().Draw(rt, "widefmt"), extras, ps)
 		cfg := baseCfg(plain)
 		cfg.Password = pkggen.Str(rt, "password", 30)
+		if room := key.Capacity() - len(nonce); len(cfg.Password) > room {
+			cfg.Password = cfg.Password[:room]
+		}
 		nrem := rapid.IntRange(0, 3).Draw(rt, "remotes")
 		for i := 0; i < nrem; i++ {
-			cfg.Remotes = append(cfg.Remotes, [2]string{pkggen.Str(rt, "remname", 30), pkggen.Str(rt, "rempw", 30)})
+			rp := pkggen.Str(rt, "rempw", 30)
+			if room := key.Capacity() - len(nonce); len(rp) > room {
+				rp = rp[:room]
+			}
+			cfg.Remotes = append(cfg.Remotes, [2]string{pkggen.Str(rt, "remname", 30), rp})
 		}
 		label := "none"
 		nedits := rapid.SampledFrom([]int{0, 1, 1, 2, 3}).Draw(rt, "nedits")
